@@ -53,13 +53,20 @@ def panic_site(msg):
     return re.sub(r"[A-Za-z_]*\d+|\"[^\"]*\"", "_", msg)[:80]
 
 
+SGROUPS = {}
+
+
 def collect(ctx):
+    SGROUPS.clear()
     ok, out = ctx.gv("c07")
     rows = vlib.read_tsv(os.path.join(ctx.run_dir, "c07.cases.tsv")) if ok else []
     progs, feats = {}, ""
     for r in rows:
         if r[0] == "#FEATS":
             feats = r[1] if len(r) > 1 else ""
+            continue
+        if r[0] == "#SGROUP":
+            SGROUPS[r[1]] = {"leaves": r[2].split(" | ") if len(r) > 2 else [], "user_types_named_by_the_real_encoders": r[3].split() if len(r) > 3 else []}
             continue
         d = progs.setdefault(r[0], {"stages": {}})
         k = r[1]
@@ -140,17 +147,24 @@ def run(ctx):
     n_closed = n_closed_ok = 0
     n_inst = n_tyinst_sites = n_tyinst_types = 0
     n_dup_groups = n_req = n_req_ok = 0
+    n_sinst = n_sinst_mono = 0
     later_panics = {}
     distinct, samples = set(), []
     streams = {}
     for k, d in main.items():
-        stream = k.split(":")[0] + (":" + k.split(":")[1] if k.startswith("fam") else "") + ("".join(":" + t for t in k.split(":")[3:]) if k.startswith("gen") else "")
+        stream = ("inst-structural" if k.startswith("inst:S:") else k.split(":")[0]) + (":" + k.split(":")[1] if k.startswith("fam") else "") + ("".join(":" + t for t in k.split(":")[3:]) if k.startswith("gen") else "")
         streams[stream] = streams.get(stream, 0) + 1
         src = d.get("src")
         if "hang" in d:
             ctx.report({"oracle": "watchdog", "kind": "mono-does-not-terminate", "family": "main-stream"},
                        "the compiler kept running for 30 s on this program; the rest of the run was abandoned", {"id": k, "src": src})
             continue
+        if k.startswith("inst:S:"):
+            n_sinst += 1
+            if "reject" in d or "core" not in d:
+                ctx.broken_ties.append(("catalogue inst:S: a program of the structural instantiation catalogue is not accepted", f"{k}: {d.get('reject') or d.get('panic')}"))
+            elif "mono" in d:
+                n_sinst_mono += 1
         if k.startswith("req:") and ("reject" in d or "core" not in d):
             ctx.broken_ties.append(("catalogue req: a program of the request-route catalogue is not accepted", f"{k}: {d.get('reject') or d.get('panic')}"))
         if "core" not in d:
@@ -222,7 +236,12 @@ def run(ctx):
         ti = [c for c in d.get("tyinst", []) if len(c) >= 5]
         for site in sorted({c[2] for c in ti}):
             cs = [c for c in ti if c[2] == site]
-            ctx.report({"oracle": "type-instances", "kind": "use-disagrees-with-definition", "site": site},
+            sig = {"oracle": "type-instances", "kind": "use-disagrees-with-definition", "site": site}
+            if k.startswith("inst:S:"):
+                # structural catalogue: the group of leaves (regrouped tuples / applications next to user types named
+                # like an encoder's spelling of them, by constructor family and kind of the user type)
+                sig["family"] = "structural:" + k.split(":")[4]
+            ctx.report(sig,
                        "the Mono program builds / matches / reads a monomorphic data type at field types other than those of the one "
                        "definition registered under its name (distinct instantiations share a name, or an instance was registered with "
                        f"the wrong body): {cs[0][1]} is defined with [{cs[0][3]}] and used in {cs[0][0]} with [{cs[0][4]}]",
@@ -350,7 +369,10 @@ def run(ctx):
     cov = {
         "evaluations": len(main) + len(rec), "distinct_nontrivial": len(distinct),
         "rule": "one case = one goml program (74 corpus programs, witnesses under corpus/C07, the instantiation-pair catalogue `inst:` (5 generic "
-                "containers x 17 positions of the one differing leaf inside the argument's type tree, leaf pair rotating with the seed), the request-route "
+                "containers x 17 positions of the one differing leaf inside the argument's type tree, leaf pair rotating with the seed), its structural "
+                "twin `inst:S:` (same containers x positions, all leaves of ONE structural group in one program, group rotating with the seed: every "
+                "bracketing of 3 and 4 tuple components; generic / Vec / Ref / array / function / tuple types over a struct and int32 next to user structs or "
+                "enums NAMED like the real encode_ty / go_type_name_for / ty_compact spelling of them, names read from the real functions), the request-route "
                 "catalogue `req:` (16 signature shapes of a 2-3 parameter generic function/method whose type parameters first occur in different orders in the "
                 "declaration, the parameter list and the result x the 9 (methods: 5) ways of asking for an instance — call, function value as argument / let / "
                 "returned / array element / struct field, call or value inside another generic instance, call inside a closure — two or all routes per "
@@ -364,6 +386,8 @@ def run(ctx):
         "instances_specialised_total": n_inst,
         "request_route_programs": n_req, "request_route_programs_with_exactly_two_instances": n_req_ok,
         "groups_of_repeated_instances": n_dup_groups,
+        "structural_instantiation_programs": n_sinst, "structural_instantiation_programs_monomorphised": n_sinst_mono,
+        "structural_groups": dict(SGROUPS),
         "type_instance_use_sites_checked": n_tyinst_sites, "type_instances_used(sum over programs)": n_tyinst_types,
         "sem_compared": n_sem, "sem_equal": n_sem_eq, "sem_skipped_core_needs_type_passing": n_sem_skip_stuck,
         "sem_skipped_fuel": n_sem_skip_fuel, "sem_with_extern_events(compared)": n_sem_skip_ext,
